@@ -874,6 +874,7 @@ def run_c01(ctx):
     long_array_stream(ctx, "c01", ["float"], 30 if ctx.tier == "quick" else 1000)
     f32_numpy_tolerance_stream(ctx, 300 if ctx.tier == "quick" else 8000)
     array_scalar_tolerance_stream(ctx, 120 if ctx.tier == "quick" else 3000)
+    extreme_shape_and_tolerance_stream(ctx, 80 if ctx.tier == "quick" else 2000)
     run_float_stream(ctx, n_float)
     ctx.rule = ("exact stream: dyadic inputs on which every floating-point operation of the implementation is exact "
                 "(checked per case), one deviating entry placed on/inside/outside the boundary of the applicable "
@@ -1401,11 +1402,14 @@ def run_c10(ctx):
             lo, hi = max(lo, -2 ** 50), min(hi, 2 ** 50)
             a = [rng.choice([lo, hi, rng.randint(lo, hi), rng.randint(lo, hi)]) for _ in range(size)]
             b = [rng.choice([lo, hi, rng.randint(lo, hi), rng.randint(lo, hi)]) for _ in range(size)]
+        if rng.random() < 0.08:
+            a, b = [0 * x for x in a], [0 * x for x in b]       # identically zero fields: t * max|value| is zero
         t = Fr(rng.choice([1, 3, 5]), 2 ** rng.randint(0, 12))
         comp = rng.random() < 0.4
         run_scaled_case(ctx, t, comp, dt, shape, a, b, exprs, vals)
     default_base_reuse_stream(ctx, 60 if q else 1500)
     unbounded_tolerance_stream(ctx, 80 if q else 2000)
+    extreme_shape_and_tolerance_stream(ctx, 60 if q else 1500)
     outs = ctx.coq_eval(HEADER, exprs, name="scaled")
     for want, out in zip(vals, outs):
         got = [Fr(x[0], x[1]) for x in out]
@@ -1456,6 +1460,58 @@ def unbounded_tolerance_stream(ctx, n):
             ctx.violation("E4", f"c10: a pair that passes at abs_tol 8 fails at an {form} absolute tolerance", canon, impl=res)
         elif form == "infinite" and res["ab"] is not True:
             ctx.violation("E4", "c10: a finite pair does not pass under an infinite absolute tolerance", canon, impl=res)
+        ctx.traces_validated += 1
+
+
+def extreme_shape_and_tolerance_stream(ctx, n):
+    """(a) relative tolerances so large that rel*max(|a|,|b|) exceeds the largest double (a way to switch a component off): the
+    formula's threshold is then simply huge, every finite pair passes; (b) an empty array against a non-empty one: different
+    shapes never compare equal, whichever of the two is passed first"""
+    from fieldcompare import predicates as P
+    rng = ctx.rng
+    for it in range(n):
+        if it % 2 == 0:
+            k = rng.choice([None, 2])
+            L = rng.randint(1, 4)
+            shape = (L,) if k is None else (L, k)
+            mag = rng.choice([1.0e9, 1.0e300, 3.0e12])
+            a = np.full(shape, mag) * np.array([rng.choice([1.0, 0.5, -1.0]) for _ in range(int(np.prod(shape)))]).reshape(shape)
+            b = a.copy()
+            if rng.random() < 0.6:
+                b.reshape(-1)[rng.randrange(b.size)] *= 0.5
+            rel = 1e300 if k is None or rng.random() < 0.5 else np.array([1e300, 1e300])
+            canon = {"huge_relative_tolerance": {"shape": list(shape), "magnitude": mag, "per_component": not np.isscalar(rel),
+                                                 "identical": bool(np.array_equal(a, b))}}
+            res = {}
+            for nm, x, y in (("aa", a, a.copy()), ("ab", a, b), ("ba", b, a)):
+                try:
+                    res[nm] = bool(P.FuzzyEquality(rel_tol=rel, abs_tol=0.0)(x, y))
+                except Exception as e:  # noqa: BLE001
+                    res[nm] = f"raised {type(e).__name__}: {e}"
+            ctx.case(canon, True, sample={"case": canon, "impl": res})
+            ctx.count("c01:relative tolerance beyond the largest double")
+            if not (res["aa"] is True and res["ab"] is True and res["ba"] is True):
+                ctx.violation("E4", f"values of magnitude {mag:g} under rel_tol=1e300 (threshold beyond every deviation): verdicts {res}, the formula "
+                                    "gives equal", canon, impl=res)
+        else:
+            k = rng.choice([None, 3])
+            L = rng.randint(1, 4)
+            dt = rng.choice(["float64", "float32", "int32"])
+            full = np.arange(L * (k or 1)).reshape((L,) if k is None else (L, k)).astype(dt)
+            empty = np.zeros((0,) if k is None else (0, k), dtype=dt)
+            pred = rng.choice([P.FuzzyEquality(rel_tol=1e-3, abs_tol=1e-3), P.DefaultEquality(), P.ExactEquality()])
+            canon = {"empty_vs_nonempty": {"dtype": dt, "shape": list(full.shape), "predicate": type(pred).__name__}}
+            res = {}
+            for nm, x, y in (("empty_first", empty, full), ("empty_second", full, empty), ("both_empty", empty, empty.copy())):
+                try:
+                    res[nm] = bool(pred(x, y))
+                except Exception as e:  # noqa: BLE001
+                    res[nm] = f"raised {type(e).__name__}: {e}"
+            ctx.case(canon, True, sample={"case": canon, "impl": res})
+            ctx.count("c01:empty array against a non-empty one")
+            if res["empty_first"] is not False or res["empty_second"] is not False or res["both_empty"] is not True:
+                ctx.violation("E4", f"an empty array against an array of shape {list(full.shape)} ({type(pred).__name__}): verdicts {res}; arrays of "
+                                    "different shape never compare equal (in either order), two empty ones do", canon, impl=res)
         ctx.traces_validated += 1
 
 
